@@ -429,7 +429,19 @@ class Core:
         posts = tuple(id(c) for c in st.ghost.get('$posts', []))
         names = tuple(sorted(k for k, v in st.loc.items() if not isinstance(v, Static)))
         hd = st.ghost.get('$handling')
-        return (statics, calls, posts, names, id(hd) if hd is not None else None, st.fn, st.depth)
+        # local lists built by this execution with different concrete lengths stay on separate paths (a join would make
+        # the length symbolic and every later *args call would have to split on it again)
+        lens = []
+        hv = st.heap.get('$val')
+        if hv is not None:
+            for k, v in st.loc.items():
+                if isinstance(v, z3.ExprRef) and v.sort() == V:
+                    sv = z3.simplify(v)
+                    if z3.is_app(sv) and sv.decl().name() == 'obj' and self._is_alloc_term(z3.simplify(V.ref(sv))):
+                        t = z3.simplify(z3.Length(V.items(z3.Select(hv, V.ref(sv)))))
+                        if z3.is_int_value(t):
+                            lens.append((k, t.as_long()))
+        return (statics, calls, posts, names, id(hd) if hd is not None else None, st.fn, st.depth, tuple(sorted(lens)))
 
     def merge(self, states):
         """exact disjunctive join of fall-through states that agree on their engine-side (static) parts"""
